@@ -167,6 +167,10 @@ func (f *Frame) evalId(name string, env *Env) *Val {
 	if v, ok := env.Vars[name]; ok {
 		return v
 	}
+	lets := f.letsFor(env)
+	if lx, ok := lets[name]; ok {
+		return f.evalC(lx, env)
+	}
 	switch name {
 	case "true":
 		return boolVal(True)
@@ -234,6 +238,16 @@ func (f *Frame) evalId(name string, env *Env) *Val {
 		}
 	}
 	f.E.fail("unknown identifier %q in contract", name)
+	return nil
+}
+
+func (f *Frame) letsFor(env *Env) map[string]*CExpr {
+	if env.Callee != nil {
+		return env.Callee.Lets
+	}
+	if f.C != nil {
+		return f.C.Lets
+	}
 	return nil
 }
 
@@ -437,7 +451,8 @@ func (f *Frame) indexVal(a, i *Val, env *Env) *Val {
 				if len(mk.vleaves) == 0 {
 					return f.zeroVal(mk.vt)
 				}
-				return f.mapValue(mk, a.X, i.X, env.State)
+				has := And(Neq(a.X, IntLit(0)), Select(f.mapDom(mk, a.X, env.State), i.X))
+				return f.iteVal(has, f.mapValue(mk, a.X, i.X, env.State), f.zeroVal(mk.vt))
 			}
 		}
 		if a.X.S.K == SString {
@@ -470,7 +485,10 @@ func (f *Frame) evalBin(e *CExpr, env *Env) *Val {
 	switch e.Op {
 	case "==", "!=":
 		var eq *Term
-		if a.K == VAddr && a.Addr.Kind == AElem && isStructType(a.Addr.T) && b.K == VAddr {
+		if a.K == VAddr && b.K == VAddr && isStructType(a.Addr.T) && isStructType(b.Addr.T) && !isOpaqueStruct(a.Addr.T) && e.Op != "" && a.Addr.Kind == AObj {
+			// embedded struct values: compare by value
+			eq = f.valEq(f.load(a.Addr, env.State), f.load(b.Addr, env.State), a.Addr.T)
+		} else if a.K == VAddr && a.Addr.Kind == AElem && isStructType(a.Addr.T) && b.K == VAddr {
 			eq = And(Eq(a.Addr.Base, b.Addr.Base), Eq(a.Addr.Idx, b.Addr.Idx))
 		} else {
 			a, b = f.unifyNil(a, b), f.unifyNil(b, a)
@@ -662,6 +680,29 @@ func (f *Frame) evalCall(e *CExpr, env *Env) *Val {
 			f.E.fail("value %s has no ghost component %s", e.Args[0], comp)
 		}
 		return intVal(g)
+	case "fn":
+		key := e.Args[0].String()
+		var args []*Val
+		for i := 1; i < len(e.Args); i++ {
+			args = append(args, arg(i))
+		}
+		return f.detApply(key, args)
+	case "as":
+		a := arg(0)
+		tn := e.Args[1].String()
+		ptr := strings.HasPrefix(tn, "ptr_")
+		n := f.E.P.Named[strings.TrimPrefix(tn, "ptr_")]
+		if n == nil {
+			f.E.fail("unknown type %s", tn)
+		}
+		var t types.Type = n
+		if ptr {
+			t = types.NewPointer(n)
+		}
+		if a.K != VIface {
+			f.E.fail("as() needs an interface value")
+		}
+		return &Val{K: VScalar, T: t, X: a.X}
 	case "istype":
 		a := arg(0)
 		tn := e.Args[1].String()
@@ -802,5 +843,73 @@ func (f *Frame) evalCall(e *CExpr, env *Env) *Val {
 		}
 	}
 	f.E.fail("unknown function %s in contract", name)
+	return nil
+}
+
+
+// detApply: the deterministic abstraction of a function: an uninterpreted function of its argument leaves.
+func (f *Frame) detApply(key string, args []*Val) *Val {
+	e := f.E
+	var rt types.Type
+	if fn := e.P.ByKey[key]; fn != nil {
+		rs := fn.Signature.Results()
+		if rs.Len() != 1 {
+			e.fail("fn(%s): exactly one result required", key)
+		}
+		rt = rs.At(0).Type()
+	} else if m := e.P.ifaceMethod(key); m != nil {
+		rs := m.Type().(*types.Signature).Results()
+		if rs.Len() != 1 {
+			e.fail("fn(%s): exactly one result required", key)
+		}
+		rt = rs.At(0).Type()
+	} else {
+		e.fail("fn(%s): unknown function", key)
+	}
+	e.Assumes["deterministic abstraction of "+key+": its result is a function of its arguments (the heap it reads is not changed between the compared calls)"] = true
+	var ts []*Term
+	var sorts []*Sort
+	for _, a := range args {
+		if a.K == VAddr {
+			e.fail("fn(%s): address argument", key)
+		}
+		if a.K == VScalar && a.T == types.Typ[types.UntypedNil] {
+			ts = append(ts, a.X)
+			sorts = append(sorts, IntS)
+			continue
+		}
+		for _, l := range a.leaves() {
+			ts = append(ts, l)
+			sorts = append(sorts, l.S)
+		}
+	}
+	ls := leavesOf(rt, e.Mode)
+	out := make([]*Term, len(ls))
+	for i, l := range ls {
+		name := fmt.Sprintf("fn$%s$%d", key, i)
+		e.declareFunSorted(name, sorts, l.sort)
+		out[i] = App(name, l.sort, ts...)
+	}
+	return valFromLeaves(rt, e.Mode, out)
+}
+
+func (p *Program) ifaceMethod(key string) *types.Func {
+	k := strings.LastIndex(key, ".")
+	if k < 0 {
+		return nil
+	}
+	n := p.Named[key[:k]]
+	if n == nil {
+		return nil
+	}
+	it, ok := n.Underlying().(*types.Interface)
+	if !ok {
+		return nil
+	}
+	for i := 0; i < it.NumMethods(); i++ {
+		if it.Method(i).Name() == key[k+1:] {
+			return it.Method(i)
+		}
+	}
 	return nil
 }
